@@ -1,25 +1,108 @@
 /-
   C11 — the client never panics or blows up on arbitrary server bytes.
-  (first theorems; the header is completed with the phase-2 theorems)
+
+  The theorems are about `GoImap.ClientParse` (Model/ClientParse.lean), the mirror of the client's
+  response reader for status responses and their codes (COPYUID, APPENDUID, …), CAPABILITY,
+  ENABLED, EXISTS/RECENT/EXPUNGE, SEARCH, ESEARCH, SORT, THREAD and FETCH (UID, RFC822.SIZE,
+  MODSEQ, FLAGS, ENVELOPE, BODY/BODYSTRUCTURE).  `clientParse {}` is the repaired reader,
+  `Legacy.clientParse` the one before the repairs.  Helper lemmas: Lemmas/ClientParseHoare.lean
+  (a Hoare logic over the parser monad) and Lemmas/ClientParseCost.lean.
+
+  Proved, for every input (no bound on its length or nesting):
+    parse_no_panic            the reader never reaches the one panic site of the decoder
+                              (UnreadByte without a preceding ReadByte)
+    depth_bounded             the nesting ghost never exceeds the decoder's limit
+    delivered_nonzero         no message number 0 is handed to the caller          ┐
+    delivered_sets_static     SEARCH/ESEARCH/COPYUID sets handed over are canonical│ invalid_is_error
+                              and without "*"                                      ┘
+    accessors_no_panic        AllSeqNums/AllUIDs/Nums do not panic on what was handed over
+    enter_ok_lt               a level of nesting is entered only below the limit
+    nums_length_is_cardinality / accessor_cost_not_bounded_by_input
+                              the enumerating accessor returns exactly `card s` numbers, and a
+                              40-byte response exists whose set has 4294967295 members (the
+                              machine-checked form of finding F25)
+    sortLoop_cost_linear, searchLoop_cost_linear
+                              ghost cost (byte reads) of the number-list readers ≤ 4·|input| + c
+  Concrete instances of `invalid_is_error` (zero, "*", overflow, nesting, malformed literal are
+  answered with an error) and the `Legacy` counterexamples for every repaired defect are proved by
+  kernel evaluation.
+
+  Validated by the oracle on every run, not proved: the tie between the model and the Go code;
+  panics below the modelled interface (mime/net/mail/go-message/utf7); time and memory (measured);
+  linear ghost cost of the remaining parsers (FETCH, THREAD, ESEARCH, status responses); that
+  `fuel = 2·|input| + 8` never runs out (the driver reports `model-out-of-fuel` if it did).
 -/
 import GoImap.Model.ClientParse
+import GoImap.Lemmas.ClientParseHoare
+import GoImap.Lemmas.ClientParseCost
 namespace GoImap.C11
 open GoImap GoImap.ClientParse
 
-/-- `* SEARCH 0 3` + `T1 OK d` -/
-def searchZero : Bytes := [42,32,83,69,65,82,67,72,32,48,32,51,13,10,84,49,32,79,75,32,100,13,10]
+/-! ### for every input: no panic, bounded depth, nothing invalid handed over -/
 
-/-- The repaired client reports `* SEARCH 0 3` as an error. -/
-theorem search_zero_is_error : (clientParse {} [84,49] (.search false) searchZero).cmd = "err" := by
-  decide +kernel
+/-- The state the read loop ends in satisfies the invariant, and the loop did not panic. -/
+theorem clientParse_good (tag : Bytes) (kind : Kind) (inp : Bytes) :
+    (clientParse {} tag kind inp).dec ≠ .panic ∧
+    (clientParse {} tag kind inp).maxDepth ≤ maxListDepth ∧
+    (∀ n ∈ (clientParse {} tag kind inp).delivered, n ≠ 0) ∧
+    (∀ s, (clientParse {} tag kind inp).all = some s → StaticSet s) ∧
+    (∀ s, (clientParse {} tag kind inp).src = some s → StaticSet s) ∧
+    (∀ s, (clientParse {} tag kind inp).dst = some s → StaticSet s) := by
+  have h := readLoop_good (2 * inp.length + 8) (inp.length + 2) _ (good_init tag kind inp)
+  unfold clientParse
+  simp only []
+  refine ⟨h.1, h.2.2, h.2.1.nz, ?_, h.2.1.src, h.2.1.dst⟩
+  intro s hs
+  cases hall : (readLoop (2 * inp.length + 8) {} (inp.length + 2)
+      { inp := inp, cs := initCS tag kind, cfg := {} }).2.cs.sAll with
+  | none => rw [hall] at hs; cases hs
+  | some us =>
+    rw [hall] at hs
+    simp only [Option.map_some, Option.some.injEq] at hs
+    rw [← hs]
+    exact h.2.1.all us.1 us.2 (by rw [hall])
 
-/-- Before the repair the command succeeded, the result set contained `*` (0), and the accessor
-    `AllSeqNums` panicked in the caller. -/
-theorem legacy_search_zero_counterexample :
-    (Legacy.clientParse [84,49] (.search false) searchZero).cmd = "ok" ∧
-    (Legacy.clientParse [84,49] (.search false) searchZero).all = some [⟨3,3⟩,⟨0,0⟩] ∧
-    (allNums [⟨3,3⟩,⟨0,0⟩]).isPanic = true := by
-  refine ⟨by decide +kernel, by decide +kernel, by decide +kernel⟩
+/-- **parse_no_panic.** No byte sequence makes the reader panic. -/
+theorem parse_no_panic (tag : Bytes) (kind : Kind) (inp : Bytes) :
+    (clientParse {} tag kind inp).dec ≠ .panic :=
+  (clientParse_good tag kind inp).1
+
+/-- **depth_bounded.** Whatever the input, nesting never goes beyond the decoder's limit. -/
+theorem depth_bounded (tag : Bytes) (kind : Kind) (inp : Bytes) :
+    (clientParse {} tag kind inp).maxDepth ≤ maxListDepth :=
+  (clientParse_good tag kind inp).2.1
+
+/-- **invalid_is_error (numbers).** A message number 0 is never handed to the caller (SORT and
+    THREAD results, FETCH and EXPUNGE sequence numbers): the response carrying it is an error. -/
+theorem delivered_nonzero (tag : Bytes) (kind : Kind) (inp : Bytes) :
+    ∀ n ∈ (clientParse {} tag kind inp).delivered, n ≠ 0 :=
+  (clientParse_good tag kind inp).2.2.1
+
+/-- **invalid_is_error (sets).** A set handed to the caller (SEARCH / ESEARCH ALL result,
+    COPYUID source and destination) is canonical and not open-ended. -/
+theorem delivered_sets_static (tag : Bytes) (kind : Kind) (inp : Bytes) (s : NumSet.Set)
+    (h : (clientParse {} tag kind inp).all = some s ∨ (clientParse {} tag kind inp).src = some s ∨
+      (clientParse {} tag kind inp).dst = some s) : StaticSet s := by
+  have g := clientParse_good tag kind inp
+  rcases h with h | h | h
+  · exact g.2.2.2.1 s h
+  · exact g.2.2.2.2.1 s h
+  · exact g.2.2.2.2.2 s h
+
+theorem allNums_static (s : NumSet.Set) (h : StaticSet s) :
+    allNums s = .value (NumSetSpec.enumerate s) := by
+  unfold allNums
+  rw [NumSet.nums_eq_enumerate s (NumSet.canon_allStatic s 0 h.1 h.2)]
+
+/-- **accessors_no_panic.** `SearchData.AllSeqNums` / `AllUIDs` (and `Nums` on the COPYUID sets)
+    do not panic on anything the reader hands over. -/
+theorem accessors_no_panic (tag : Bytes) (kind : Kind) (inp : Bytes) (s : NumSet.Set)
+    (h : (clientParse {} tag kind inp).all = some s ∨ (clientParse {} tag kind inp).src = some s ∨
+      (clientParse {} tag kind inp).dst = some s) : (allNums s).isPanic = false := by
+  rw [allNums_static s (delivered_sets_static tag kind inp s h)]
+  rfl
+
+example : StaticSet [⟨1, 3⟩, ⟨7, 7⟩] := ⟨(NumSet.canonical_iff _).1 (by decide), by decide⟩
 
 /-- Entering a level of nesting succeeds only below the limit. -/
 theorem enter_ok_lt (depth : Nat) (d d' : Dec) (dp : Nat) (h : enter depth d = .ok dp d') :
@@ -29,5 +112,139 @@ theorem enter_ok_lt (depth : Nat) (d d' : Dec) (dp : Nat) (h : enter depth d = .
   · simp [c] at h
   · simp [c] at h
     omega
+
+/-! ### the enumerating accessor: exactly `card s` numbers, not bounded by the input -/
+
+/-- the number of members of a static set, computed from its ranges -/
+def card (s : NumSet.Set) : Nat := (s.map fun r => r.stop + 1 - r.start).sum
+
+theorem enumerate_length (s : NumSet.Set) : (NumSetSpec.enumerate s).length = card s := by
+  induction s with
+  | nil => rfl
+  | cons r rest ih =>
+    rw [NumSet.enumerate_cons, List.length_append, List.length_range', ih]
+    simp [card]
+
+/-- **accessor_cost.** On a delivered set the enumerating accessor returns exactly `card s`
+    numbers: its cost is the cardinality of the set, whatever the size of the response was. -/
+theorem nums_length_is_cardinality (s : NumSet.Set) (h : StaticSet s) :
+    ∃ l, allNums s = .value l ∧ l.length = card s :=
+  ⟨_, allNums_static s h, enumerate_length s⟩
+
+/-- `* ESEARCH (TAG "T1") UID ALL 1:4294967295` + `T1 OK d` -/
+def wideRange : Bytes :=
+  [42,32,69,83,69,65,82,67,72,32,40,84,65,71,32,34,84,49,34,41,32,85,73,68,32,65,76,76,32,
+   49,58,52,50,57,52,57,54,55,50,57,53,13,10,84,49,32,79,75,32,100,13,10]
+
+/-- **F25, machine-checked.** A 52-byte stream is accepted, and the set it delivers has
+    4294967295 members: the enumerating accessors are not linear in the input (by design of the
+    API; recorded as a known finding, not repaired). -/
+theorem accessor_cost_not_bounded_by_input :
+    wideRange.length = 52 ∧
+    (clientParse {} [84,49] (.search true) wideRange).cmd = "ok" ∧
+    (clientParse {} [84,49] (.search true) wideRange).all = some [⟨1, 4294967295⟩] ∧
+    card [⟨1, 4294967295⟩] = 4294967295 := by
+  refine ⟨by decide, by decide +kernel, by decide +kernel, by decide⟩
+
+/-! ### ghost cost of the number-list readers -/
+
+/-- **cost_linear (SORT).** Reading a SORT response costs at most four byte reads per input
+    byte, plus a constant: descending numbers are not expensive to *read* (F27 is about what
+    `AddNum` does with them afterwards). -/
+theorem sortLoop_cost_linear (fuel : Nat) (d d' : Dec)
+    (h : sortLoop true fuel d = .ok () d' ∨ sortLoop true fuel d = .err d') :
+    d'.cost ≤ d.cost + 4 * d.inp.length + 3 :=
+  sortLoop_cost fuel d d' h
+
+/-- **cost_linear (SEARCH).** The same for `* SEARCH n n n … [(MODSEQ n)]`. -/
+theorem searchLoop_cost_linear (fuel : Nat) (d d' : Dec)
+    (h : searchLoop true fuel d = .ok () d' ∨ searchLoop true fuel d = .err d') :
+    d'.cost ≤ d.cost + 4 * d.inp.length + 8 :=
+  searchLoop_cost fuel d d' h
+
+/-! ### instances of `invalid_is_error`, and the behaviour before the repairs -/
+
+/-- `* SEARCH 0 3` + `T1 OK d` -/
+def searchZero : Bytes := [42,32,83,69,65,82,67,72,32,48,32,51,13,10,84,49,32,79,75,32,100,13,10]
+
+/-- The repaired client reports `* SEARCH 0 3` as an error. -/
+theorem search_zero_is_error : (clientParse {} [84,49] (.search false) searchZero).cmd = "err" := by
+  decide +kernel
+
+/-- Before the repair (F17) the command succeeded, the result set contained `*` (0), and the
+    accessor `AllSeqNums` panicked in the caller. -/
+theorem legacy_search_zero_counterexample :
+    (Legacy.clientParse [84,49] (.search false) searchZero).cmd = "ok" ∧
+    (Legacy.clientParse [84,49] (.search false) searchZero).all = some [⟨3,3⟩,⟨0,0⟩] ∧
+    (allNums [⟨3,3⟩,⟨0,0⟩]).isPanic = true := by
+  refine ⟨by decide +kernel, by decide +kernel, by decide +kernel⟩
+
+/-- `* SORT 2 0 1` + `T1 OK d` -/
+def sortZero : Bytes := [42,32,83,79,82,84,32,50,32,48,32,49,13,10,84,49,32,79,75,32,100,13,10]
+
+theorem sort_zero_is_error : (clientParse {} [84,49] .sort sortZero).cmd = "err" := by decide +kernel
+
+/-- F17 for SORT: 0 was handed over as a message number. -/
+theorem legacy_sort_zero_counterexample :
+    (Legacy.clientParse [84,49] .sort sortZero).cmd = "ok" ∧
+    0 ∈ (Legacy.clientParse [84,49] .sort sortZero).delivered := by
+  refine ⟨by decide +kernel, by decide +kernel⟩
+
+/-- `* 0 FETCH (UID 5)` + `T1 OK d` -/
+def fetchZero : Bytes := [42,32,48,32,70,69,84,67,72,32,40,85,73,68,32,53,41,13,10,84,49,32,79,75,32,100,13,10]
+
+theorem fetch_zero_is_error : (clientParse {} [84,49] (.fetch true [⟨1,0⟩]) fetchZero).cmd = "err" := by
+  decide +kernel
+
+/-- F17b: a UID FETCH received message 0. -/
+theorem legacy_fetch_zero_counterexample :
+    (Legacy.clientParse [84,49] (.fetch true [⟨1,0⟩]) fetchZero).cmd = "ok" ∧
+    0 ∈ (Legacy.clientParse [84,49] (.fetch true [⟨1,0⟩]) fetchZero).delivered := by
+  refine ⟨by decide +kernel, by decide +kernel⟩
+
+/-- `* ESEARCH (TAG "T1") ALL 1:*` + `T1 OK d` -/
+def esearchStar : Bytes :=
+  [42,32,69,83,69,65,82,67,72,32,40,84,65,71,32,34,84,49,34,41,32,65,76,76,32,49,58,42,13,10,84,49,32,79,75,32,100,13,10]
+
+/-- An open-ended set in a result is an error. -/
+theorem esearch_dynamic_is_error : (clientParse {} [84,49] (.search false) esearchStar).cmd = "err" := by
+  decide +kernel
+
+/-- `* SEARCH 4294967296` + `T1 OK d`: a number that does not fit 32 bits -/
+def searchOverflow : Bytes :=
+  [42,32,83,69,65,82,67,72,32,52,50,57,52,57,54,55,50,57,54,13,10,84,49,32,79,75,32,100,13,10]
+
+theorem overflow_is_error : (clientParse {} [84,49] (.search false) searchOverflow).cmd = "err" := by
+  decide +kernel
+
+/-- `* ESEARCH (TAG {5}T1) ALL 1:3` + `T1 OK d`: a literal whose header is not followed by CRLF -/
+def badLiteralTag : Bytes :=
+  [42,32,69,83,69,65,82,67,72,32,40,84,65,71,32,123,53,125,84,49,41,32,65,76,76,32,49,58,51,13,10,84,49,32,79,75,32,100,13,10]
+
+theorem malformed_literal_is_error : (clientParse {} [84,49] (.search false) badLiteralTag).cmd = "err" := by
+  decide +kernel
+
+/-- F60: before the repair the malformed literal was skipped, the following bytes were read as
+    an atom, and the response was delivered. -/
+theorem legacy_malformed_literal_counterexample :
+    (Legacy.clientParse [84,49] (.search false) badLiteralTag).cmd = "ok" ∧
+    (Legacy.clientParse [84,49] (.search false) badLiteralTag).all = some [⟨1,3⟩] := by
+  refine ⟨by decide +kernel, by decide +kernel⟩
+
+/-- `* 1 FETCH (BODYSTRUCTURE ` followed by `n` opening parentheses -/
+def deepBody (n : Nat) : Bytes :=
+  [42,32,49,32,70,69,84,67,72,32,40,66,79,68,89,83,84,82,85,67,84,85,82,69,32] ++ List.replicate n 40
+
+/-- Nesting beyond the limit is an error, reached at the limit. -/
+theorem overdeep_is_error :
+    (clientParse {} [84,49] (.fetch false [⟨1,0⟩]) (deepBody 1003)).dec = .err ∧
+    (clientParse {} [84,49] (.fetch false [⟨1,0⟩]) (deepBody 1003)).maxDepth = maxListDepth := by
+  refine ⟨by decide +kernel, by decide +kernel⟩
+
+/-- F16: before the repair `readBody` recursed once per parenthesis without any limit (the
+    Go stack is what gave way). -/
+theorem legacy_depth_counterexample :
+    (Legacy.clientParse [84,49] (.fetch false [⟨1,0⟩]) (deepBody 1003)).maxDepth > maxListDepth + 2 := by
+  decide +kernel
 
 end GoImap.C11
